@@ -74,7 +74,9 @@ func c02Consul(c *ctx) {
 	defer up.Close()
 	upPort := ln.Addr().(*net.TCPAddr).Port
 	proxyAddr := fmt.Sprintf("127.0.0.1:%d", freePort())
-	rg, err := newRig(c, "c02b", []string{"-proxy.addr", proxyAddr})
+	// a tcp-dynamic listener: ports named by tcp routes are opened as the table asks for them
+	dynPort := freePort()
+	rg, err := newRig(c, "c02b", []string{"-proxy.addr", fmt.Sprintf("%s,127.0.0.1:%d;proto=tcp-dynamic;refresh=200ms", proxyAddr, freePort())})
 	if err != nil {
 		c.R.Inconcl("cannot start fabio: %v", err)
 		return
@@ -183,6 +185,14 @@ func c02Consul(c *ctx) {
 			var lines []string
 			for _, d := range curMan {
 				lines = append(lines, d.Text())
+			}
+			if r.Intn(2) == 0 {
+				// tcp routes for the dynamic listener, one port in two spellings (both are what the table accepts)
+				for k, sp := range []string{fmt.Sprintf(":%d", dynPort), fmt.Sprintf(":0%d", dynPort)} {
+					d := refmodel.Def{Cmd: "add", Service: fmt.Sprintf("dyn%d", k), Src: sp, Dst: fmt.Sprintf("tcp://127.0.0.1:%d", upPort)}
+					curMan = append(curMan, d)
+					lines = append(lines, d.Text())
+				}
 			}
 			if r.Intn(4) == 0 { // a large but valid text
 				for k := 0; k < 200; k++ {
